@@ -6,8 +6,9 @@ from .facts import Facts
 
 
 class Context:
-    def __init__(self, tier="quick", config="main"):
+    def __init__(self, tier="quick", config=None):
         self.tier = tier
+        config = config or os.environ.get("LHSA_CONFIG", "main")     # "test" = the -DTEST_BUILD -DALLOC_TESTING configuration of the test binaries
         self.config = config
         self.views = Views(config=config)
         self._mods = {}
